@@ -62,7 +62,7 @@ pub fn record(id: usize, prop: &str, text: &str, row_lines: Option<Vec<usize>>, 
     };
     json!({
         "ev": "parse", "id": id, "prop": prop, "cs": cs, "lexed": lexed, "tokens": tokens, "res": res, "dump": dump,
-        "reparse_ok": true, "err_spans": err_spans, "spans_ok": spans_ok, "render_ok": render_ok, "has_truth": row_lines.is_some(), "row_lines": row_lines.unwrap_or_default(),
+        "reparse_ok": true, "has_ref": false, "ref_stmts": [], "err_spans": err_spans, "spans_ok": spans_ok, "render_ok": render_ok, "has_truth": row_lines.is_some(), "row_lines": row_lines.unwrap_or_default(),
         "group": group, "note": note, "msg": msg, "text": text,
     })
 }
@@ -339,6 +339,28 @@ pub fn parsegen(prop: &str, seed: u64, runs: usize) -> Vec<J> {
                         last["reparse_ok"] = json!(same);
                         last["note"] = json!(format!("reparse {k}"));
                     }
+                }
+            }
+        }
+        "display" => {
+            // growth beyond the listed properties: what `Display for TestCase` prints for the statements parses back to the
+            // same statements (fully parenthesised expressions, `repeat` shown as a loop over n)
+            for _ in 0..runs {
+                let s: u64 = top.gen();
+                let mut g = Gen::new(s, Knobs { max_virtuals: 1, allow_random: true, p_c: 0.05, p_x: 0.08, bidir: true, big_consts: s % 3 == 0, max_stmts: 14, ..Knobs::control_flow() });
+                let plan = g.plan();
+                let prog = g.program(&plan);
+                let printed = print_test(&plan.header, &prog, &Layout::canonical());
+                let sigs: Vec<digital_test_runner::Signal> = plan.supplied.iter().map(|x| x.to_real()).collect();
+                let Some(tc) = ParsedTestCase::from_str(&printed.text).ok().and_then(|p| p.with_signals(sigs).ok()) else { continue };
+                let shown = format!("{tc}");
+                let body: Vec<&str> = shown.lines().skip(1).collect();
+                let text2 = format!("{}\n{}\n", plan.header.join(" "), body.join("\n"));
+                let d: J = serde_json::from_str(&tc.verif_dump()).expect("dump");
+                push(&mut out, prop, &text2, None, 0, "display");
+                if let Some(last) = out.last_mut() {
+                    last["has_ref"] = json!(true);
+                    last["ref_stmts"] = json!(dump_stmts_to_spec(&d["stmts"]));
                 }
             }
         }
